@@ -12,6 +12,7 @@ import (
 	"encoding/binary"
 	"fmt"
 	"net"
+	"os"
 	"sort"
 	"strconv"
 	"strings"
@@ -77,26 +78,55 @@ type ltsRun struct {
 	closes   []string
 	waitFor  time.Duration
 	peerShut bool
+	outLimit int // -1 = unlimited; otherwise the number of bytes the peer still reads before it vanishes
 }
 
 func newLtsRun() *ltsRun {
 	return &ltsRun{callers: map[int]*ltsCaller{}, notify: make(chan struct{}, 1), rdDone: make(chan struct{}),
-		connErr: make(chan error, 1), waitFor: 1500 * time.Millisecond}
+		connErr: make(chan error, 1), waitFor: 1500 * time.Millisecond, outLimit: -1}
 }
 
+// peerReader consumes everything the client writes, byte-wise, and parses complete frames out of it. When a byte budget
+// was set by "pcutout:j" it reads exactly that many more bytes and then closes the peer's side (the peer vanishes
+// inside an outbound frame).
 func (r *ltsRun) peerReader() {
 	defer close(r.rdDone)
+	var buf []byte
+	chunk := make([]byte, 4096)
 	for {
-		f, err := r.peer.recv(time.Hour)
-		if err != nil {
+		r.mu.Lock()
+		lim := r.outLimit
+		r.mu.Unlock()
+		if lim == 0 {
+			r.srv.Close()
 			return
 		}
-		r.mu.Lock()
-		r.frames = append(r.frames, f)
-		r.mu.Unlock()
-		select {
-		case r.notify <- struct{}{}:
-		default:
+		// one byte at a time: a Read that is already blocked when a budget is set must not overshoot it
+		k, err := r.srv.Read(chunk[:1])
+		if k > 0 {
+			buf = append(buf, chunk[:k]...)
+			r.mu.Lock()
+			if r.outLimit > 0 {
+				r.outLimit -= k
+			}
+			for len(buf) >= 10 {
+				ln := int(binary.BigEndian.Uint32(buf[2:6]))
+				if ln < 10 || len(buf) < ln {
+					break
+				}
+				f := vframe{ver: int(buf[0]>>2) & 7, typ: int(buf[0]&3)<<8 | int(buf[1]), id: binary.BigEndian.Uint32(buf[6:10]),
+					payload: append([]byte{}, buf[10:ln]...)}
+				r.frames = append(r.frames, f)
+				buf = buf[ln:]
+			}
+			r.mu.Unlock()
+			select {
+			case r.notify <- struct{}{}:
+			default:
+			}
+		}
+		if err != nil {
+			return
 		}
 	}
 }
@@ -111,8 +141,10 @@ func (r *ltsRun) nframes() int {
 func (r *ltsRun) widByToken(tok uint64) (uint32, bool) {
 	r.mu.Lock()
 	defer r.mu.Unlock()
+	typ := int(tok >> 32)
+	tok &= 1<<32 - 1
 	for _, f := range r.frames {
-		if f.typ != 72 && ltsToken(f.typ, f.payload) == tok {
+		if f.typ != 72 && (typ == 0 || f.typ == typ) && ltsToken(f.typ, f.payload) == tok {
 			return f.id, true
 		}
 	}
@@ -235,6 +267,15 @@ func (r *ltsRun) play(ops []string) string {
 		case "pc":
 			r.srv.Close()
 			r.peerShut = true
+		case "pcutout":
+			r.mu.Lock()
+			r.outLimit = atoi(p[1])
+			r.mu.Unlock()
+			if atoi(p[1]) == 0 {
+				// the reader is blocked in Read with no budget left: the next byte would be one too many, so vanish now
+				r.srv.Close()
+			}
+			r.peerShut = true
 		case "tmo":
 			// the client's own deadline fires; nothing to do here
 		case "call":
@@ -260,7 +301,7 @@ func (r *ltsRun) play(ops []string) string {
 			})
 		case "shutdown":
 			c := atoi(p[1])
-			toks[c] = 0
+			toks[c] = 14 << 32 // identified by its type: CloseConnection has no payload
 			r.spawn(c, func(ctx context.Context) string {
 				if err := r.c.Shutdown(ctx); err != nil {
 					return callResult(0, nil, err)
@@ -356,6 +397,8 @@ func (r *ltsRun) play(ops []string) string {
 		return obs
 	}
 	wr := []string{}
+	r.mu.Lock()
+	defer r.mu.Unlock()
 	for _, f := range r.frames {
 		wr = append(wr, fmt.Sprintf("%d:%d:%d", f.typ, f.id, ltsToken(f.typ, f.payload)))
 	}
@@ -363,6 +406,9 @@ func (r *ltsRun) play(ops []string) string {
 }
 
 func connClass(err error) string {
+	if os.Getenv("VERIF_LTS_DEBUG") != "" {
+		fmt.Fprintln(os.Stderr, "Connect returned:", err)
+	}
 	if err != nil && strings.HasPrefix(err.Error(), "panic:") {
 		return "panic"
 	}
